@@ -2,6 +2,7 @@
 From Cctp Require Import Lib.Bytes Lib.SMap Lib.Bech32.
 From Cctp Require Import Model.State Model.Ledger Model.Handlers Model.Chain.
 From Cctp Require Import Spec.Roles Proofs.MonadFacts Proofs.AdminFacts.
+From Cctp Require Import Vectors.Examples.
 
 (* For every chain whose four role slots are set (every chain initialised from a genesis, see
    C10_roles_always_set), every one of the 18 privileged transaction types (Spec/Roles.v: role_of is
@@ -31,6 +32,11 @@ Proof. intros t. destruct t; cbn; intuition discriminate. Qed.
 (* reachability: the four role slots are set in every state reachable from a state where they are set *)
 Theorem C10_roles_always_set : forall e c h, roles_set (c_st c) -> roles_set (c_st (run e c h)).
 Proof. intros e c h. exact (roles_set_run e h c). Qed.
+
+(* non-vacuity: the hypotheses hold for a concrete chain, transaction and non-holder *)
+Example C10_example : roles_set ex_store /\ role_of (PauseBurningAndMinting ex_alice) = Some RPauser /\
+  holder RPauser ex_store <> Some (submitter (PauseBurningAndMinting ex_alice)).
+Proof. vm_compute. repeat split; discriminate. Qed.
 
 Print Assumptions C10_wrong_role_no_effect.
 Print Assumptions C10_eighteen_privileged_types.
